@@ -265,7 +265,9 @@ fn rand_tx(rng: &mut ChaCha20Rng, pool: &Pool, feats: u32) -> (Transaction, Vec<
         if rng.gen() { i.is_pegin = true; i.witness.pegin_witness = wit(rng); }
         inputs.push(i); tags.push("in:issuance-confidential".into());
     }
-    if feats & 8 != 0 { let mut i = TxIn::default(); i.sequence = Sequence(rng.gen()); let n = rng.gen_range(2..20); i.script_sig = Script::from(rbytes(rng, n)); inputs.push(i); tags.push("in:coinbase".into()); }
+    if feats & 8 != 0 { let mut i = TxIn::default(); i.sequence = Sequence(rng.gen()); let n = rng.gen_range(2..20); i.script_sig = Script::from(rbytes(rng, n)); inputs.push(i); tags.push("in:coinbase".into());
+        // the all-ones index on a REAL txid: not the null outpoint, yet the index alone decides that no flag bit is read (seeded C08-r6-2)
+        if rng.gen_range(0..3) > 0 { let mut j = plain.clone(); j.previous_output.vout = 0xffff_ffff; inputs.push(j); tags.push("in:allones-index-real-txid".into()); } }
     let mut outputs = vec![];
     let mut ex = TxOut::new_fee(rng.gen_range(1..100000), AssetId::from_byte_array(r32(rng)));
     { let n = rng.gen_range(0..24); ex.script_pubkey = Script::from(rbytes(rng, n)); }
